@@ -907,3 +907,43 @@ Definition init_state : state :=
 (* a whole program: State.Eval of the statement list on a fresh state *)
 Definition eval_program (fuel : nat) (prog : node) : outcome * state :=
   match run fuel (TNode prog) init_state with (o, st) => (unwrap o, st) end.
+
+(* ------------------------------------------------------------------ documented binding strengths *)
+(* Frozen copy (by name) of the precedence table the reference semantics was written against.  The
+   reference evaluator works on trees, so the table is not used by [run]; it is compared, on every run,
+   with the table the translator reads from /repo (proofs/RefEval_proofs.v: prec_table_frozen), and the
+   harness checks on the implementation that unparenthesised operator pairs group accordingly. *)
+Definition ref_prec : list (Z * Z) :=
+  [(token_DEFINE, ast_ASSIGN); (token_ASSIGN, ast_ASSIGN);
+   (token_OR, ast_OR); (token_AND, ast_AND); (token_COLON, ast_AND);
+   (token_EQ, ast_EQUALS); (token_NOTEQ, ast_EQUALS); (token_LAMBDA, ast_LAMBDA);
+   (token_LT, ast_LESSGREATER); (token_GT, ast_LESSGREATER); (token_LTEQ, ast_LESSGREATER); (token_GTEQ, ast_LESSGREATER);
+   (token_PLUS, ast_SUM); (token_MINUS, ast_SUM); (token_BITOR, ast_SUM); (token_BITXOR, ast_SUM);
+   (token_BITAND, ast_PRODUCT); (token_ASTERISK, ast_PRODUCT); (token_PERCENT, ast_PRODUCT);
+   (token_LEFTSHIFT, ast_PRODUCT); (token_RIGHTSHIFT, ast_PRODUCT);
+   (token_SLASH, ast_DIVIDE); (token_INCR, ast_PREFIX); (token_DECR, ast_PREFIX);
+   (token_LPAREN, ast_CALL); (token_LBRACKET, ast_INDEX); (token_DOT, ast_DOTINDEX)].
+
+(* the binding levels from weakest to strongest *)
+Definition ref_levels : list Z :=
+  [ast_LOWEST; ast_ASSIGN; ast_OR; ast_AND; ast_LAMBDA; ast_EQUALS; ast_LESSGREATER; ast_SUM; ast_PRODUCT;
+   ast_DIVIDE; ast_PREFIX; ast_CALL; ast_INDEX; ast_DOTINDEX].
+
+Fixpoint prec_lookup (tbl : list (Z * Z)) (t : Z) : option Z :=
+  match tbl with
+  | [] => None
+  | (k, p) :: r => if k =? t then Some p else prec_lookup r t
+  end.
+
+Definition opt_z_eqb (a b : option Z) : bool :=
+  match a, b with Some x, Some y => x =? y | None, None => true | _, _ => false end.
+
+(* the two tables are the same function on the tokens either of them mentions *)
+Definition prec_tables_agree (t1 t2 : list (Z * Z)) : bool :=
+  forallb (fun kp => opt_z_eqb (prec_lookup t1 (fst kp)) (prec_lookup t2 (fst kp))) (t1 ++ t2).
+
+Fixpoint strictly_increasing (l : list Z) : bool :=
+  match l with
+  | a :: ((b :: _) as r) => (a <? b) && strictly_increasing r
+  | _ => true
+  end.
